@@ -333,15 +333,17 @@ func c05child() {
 // ---------------------------------------------------------------- trace normalisation
 
 type c05ncall struct {
-	coq  string
-	kind string
+	coq   string
+	kind  string
+	area  string
+	fname string
 }
 
 type c05names2 struct {
-	root   string
-	up     map[string]int // upload entry name -> canonical id (order of first appearance)
-	upList []string
-	ca     map[string]int // cache name -> digest index
+	root string
+	up   map[string]int // upload entry name -> canonical id: slot number, temporaries numbered after the slots
+	next int
+	ca   map[string]int // cache name -> digest index
 }
 
 func c05fname(s string) (string, bool) {
@@ -370,9 +372,9 @@ func (n *c05names2) upID(name string) int {
 	if id, ok := n.up[name]; ok {
 		return id
 	}
-	id := len(n.upList)
+	id := n.next
 	n.up[name] = id
-	n.upList = append(n.upList, name)
+	n.next++
 	return id
 }
 
@@ -510,7 +512,11 @@ func c05normalise(calls []fstrace.Call, n *c05names2) []c05ncall {
 				r = bad(c)
 				break
 			}
-			r = c05ncall{coq: fmt.Sprintf("CTrunc %s %d %s %d", c05area(l), l.key, l.fname, c.Off), kind: "Trunc"}
+			n := c.Off
+			if l.fname == "FLat" && n > 0 {
+				n = 1
+			}
+			r = c05ncall{coq: fmt.Sprintf("CTrunc %s %d %s %d", c05area(l), l.key, l.fname, n), kind: "Trunc", fname: l.fname}
 		case "rename", "renameat", "renameat2":
 			a, b := n.locate(c.Path), n.locate(c.Path2)
 			if !a.ok || !b.ok || a.kind != "ufile" || b.kind != "cfile" || a.fname != "FData" || b.fname != "FData" {
@@ -527,7 +533,7 @@ func c05normalise(calls []fstrace.Call, n *c05names2) []c05ncall {
 			case isDir && (l.kind == "udir" || l.kind == "cdir"):
 				r = c05ncall{coq: fmt.Sprintf("CRmDir %s %d", c05area(l), l.key), kind: "RmDir"}
 			case !isDir && (l.kind == "ufile" || l.kind == "cfile"):
-				r = c05ncall{coq: fmt.Sprintf("CUnlink %s %d %s", c05area(l), l.key, l.fname), kind: "Unlink"}
+				r = c05ncall{coq: fmt.Sprintf("CUnlink %s %d %s", c05area(l), l.key, l.fname), kind: "Unlink", area: c05area(l), fname: l.fname}
 			default:
 				r = bad(c)
 			}
